@@ -255,8 +255,9 @@ def to_entry(e, mdir):
     return R.Entry(tag, path=p, size=e['size'], checksums=e['ck'])
 
 
-def render(lay):
-    """Render a symbolic layout bottom-up.  Returns the Manifest files in
+def render(lay, order_seed=None):
+    """Render a symbolic layout bottom-up (entries of every Manifest shuffled
+    by @order_seed if given).  Returns the Manifest files in
     write order (children before parents): [{'p','fmt','text'}]."""
     manifests = lay['manifests']
     children = {i: [] for i in range(len(manifests))}
@@ -277,6 +278,11 @@ def render(lay):
             entries.append(R.Entry(
                 'MANIFEST', path=rel(cm['p'], m['dir']), size=len(data),
                 checksums=R.digests(data, cm['mhash'])))
+        if order_seed is not None:
+            import hashlib
+            entries.sort(key=lambda en: hashlib.sha1(
+                (str(order_seed) + en.to_line()).encode(
+                    'utf8', 'surrogatepass')).digest())
         text = R.dump_entries(entries)
         data = R.compress(text.encode('utf8', 'surrogatepass'), m['fmt'])
         rendered[i] = data
